@@ -28,6 +28,8 @@ def tmatch(T, v):
     if isinstance(T, str):
         if T == 'none':
             return v is None
+        if T == 'any':
+            return True
         if T == 'opaque':
             return isinstance(v, dict)
         if T == 'str':
